@@ -1317,7 +1317,8 @@ def emit_instr(em, fc, f, I, lab, edge):
         # difference of two pointers (libstdc++ containers): keep it a C pointer subtraction so
         # that CBMC folds it to the offset difference inside one object
         A = fc.defs[I['a'].name]; B = fc.defs[I['b'].name]
-        setres('((%s)((uint8_t*)%s - (uint8_t*)%s))' % (em.ctype(I['rtype']), V(A['t'], A['a']), V(B['t'], B['a'])))
+        pa = V(A['t'], A['a']); pb = V(B['t'], B['a'])
+        setres('((%s)(((void*)%s == (void*)%s) ? 0 : ((uint8_t*)%s - (uint8_t*)%s)))' % (em.ctype(I['rtype']), pa, pb, pa, pb))
     elif op in CE_BIN:
         setres(em.binop(op, I['rtype'], V(I['rtype'], I['a']), V(I['rtype'], I['b']), I['flags']))
     elif op in ('fadd', 'fsub', 'fmul', 'fdiv'):
@@ -1937,6 +1938,22 @@ def main():
                 o.write('%s %s = %s;\n' % (c[1], c[0], c[2]))
         for fn, code in done_f.items():
             if code: o.write(code + '\n')
+        # concrete build (translation validation): functions without a body (stubbed by --stub or
+        # external) may still be referenced from vtables; give them inert definitions there
+        RT_DEFINED = {'_Znwm', '_Znam', '_ZdlPv', '_ZdaPv', '_ZdlPvm', '__cxa_pure_virtual', '__cxa_atexit', '__cxa_allocate_exception',
+                      '__cxa_free_exception', '__cxa_throw', '__cxa_begin_catch', '__cxa_end_catch', '__cxa_rethrow', '__cxa_guard_acquire',
+                      '__cxa_guard_release', '__cxa_guard_abort', '_ZNSt8ios_base4InitC1Ev', '_ZNSt8ios_base4InitD1Ev', '__gxx_personality_v0'}
+        o.write('#ifdef __LL2C_CONCRETE\n')
+        for fn, c in done_f.items():
+            if c is not None or fn.startswith('@llvm.'): continue
+            f = m.funcs.get(fn)
+            nm = em.fname(fn)
+            if f is None or cid(fn) in LIBC or nm in RT_DEFINED or nm.startswith('vp_') or nm.startswith('__ll2c_'): continue
+            ps = ', '.join('%s a%d' % (em.ctype(p[0]), k) for k, p in enumerate(f.params))
+            if f.va: ps += ', ...' if ps else '...'
+            if not ps: ps = 'void'
+            o.write('%s %s(%s) { %s }\n' % (em.ctype(f.ret), nm, ps, zero_ret(em, f)))
+        o.write('#endif\n')
         # ctors
         o.write('void __ll2c_run_ctors(void) {\n')
         for (prio, fv) in sorted(m.ctors, key=lambda x: x[0]):
